@@ -27,6 +27,7 @@ func runC01(c *Ctx) {
 	c01R1(c, discharged)
 	valueAfterError(c, "R3")
 	nilRoot(c, "R4")
+	explicitPanics(c, "R5")
 	divisionGuards(c, "R6")
 	indexGuards(c, "R6")
 	payloadUnderTag(c, "R7")
